@@ -25,24 +25,37 @@ LEVEL_TEXT = ("Lean theorems over the rational model of create_range_dim / creat
               "The straight-line code of all five functions around their library calls (step selection, the arange call, "
               "trailing-point guard and threshold, range test, clamp values, slice-bound side and offset, the indexer) is "
               "traced symbolically from the current source on every run and proved equal to the model's kernels for all "
-              "rationals (38 obligations); the library calls themselves are tied by exact differential runs (dyadic grids "
-              "for ranges, arbitrary floats for the comparison-only lookup, all small shapes for writes).")
+              "rationals (49 obligations, the lookup also on every axis of 2-D / 3-D arrays and on axes carrying a step "
+              "attribute, with stand-in arrays whose coordinates are registered in another order than their dimensions); "
+              "the library calls themselves are tied by exact differential runs (dyadic grids for ranges, arbitrary "
+              "floats for the comparison-only lookup, all small shapes for writes, and non-square 1-D to 3-D arrays built "
+              "along every construction path of xarray - coordinate order, transposition, dimensions without "
+              "coordinates, extra non-index coordinates, assign / Dataset / tuple forms, float32 / int64 axes - for "
+              "lookups and writes, the whole array compared after each write).")
 LEVEL_NOTE = ("Unmodelled: binary64 rounding inside numpy arange (hypothesis of C16_count_robust, evaluated exactly on what "
               "np.arange returned for steps such as 0.1, 1/3, 1/44100 and for steps derived from size= / samplerate=; "
               "coordinates additionally within 2^-40 of the lattice), pandas get_slice_bound (modelled as #{c <= v}; known "
               "finding C16-2: on a float32 axis pandas casts the query value to float32 first), numpy broadcasting rules "
-              "beyond right-aligned equal-or-1.  The symbolic ties cover arrays of up to three dimensions; "
+              "beyond right-aligned equal-or-1.  The symbolic ties cover arrays of up to three dimensions; len() of a "
+              "stand-in array / index answers with an opaque large number (a branch on the length itself is followed as "
+              "for a long axis; axes of 1-6 points are the differential runs' business); float32 coordinates with "
+              "decimal steps are monitored from start 0 only (count, step attribute, lattice up to float32 rounding); "
               "create_*_dim_from_array and set_dim_attrs are outside the model.")
 TECHNIQUE = ("Lean 4 proof over model; symbolic-trace equality obligations for the kernels of the range constructors, "
              "get_coord_index and set_value_at_pos; exact differential correspondence; numpy-contract monitor for arange rounding")
 RULE = ("range requests on dyadic grids (all quotient fractions 0, 1/4, 1/2, 3/4; int / numpy-scalar arguments, float32 "
         "coordinates), decimal-step monitor (step=, size=, samplerate=), lookups on float axes of 1-6 points with queries at, "
-        "between, next to and beyond coordinates (float / numpy / int query values, float32 and int64 axes), writes on every "
+        "between, next to and beyond coordinates (float / numpy / int query values, float32 and int64 axes), lookups on "
+        "range-constructor axes inside and within / beyond one step outside (raise and clamp), lookups on every axis of 13 "
+        "non-square 2-D / 3-D shapes and writes on 14 shapes x every construction path (coordinate order, transposition, "
+        "dimensions without coordinates, extra coordinates, forms, dtypes), writes on every "
         "shape with 1-3 axes of 1-3 points and a 4-D sample; non-trivial = the implementation returned a value; distinct = "
         "distinct (operation, input)")
 TRUSTED = ["numpy arange / pandas get_slice_bound / xarray indexes and get_axis_num (modelled, validated by correspondence)",
            "the stand-ins of harness/c16_sym.py answer like numpy / xarray where the kernels ask (np.arange raises on a zero "
-           "step, Index.min / max are the range of an increasing axis, get_axis_num raises ValueError for an unknown dimension)"]
+           "step, Index.min / max are the range of an increasing axis, get_axis_num raises ValueError for an unknown dimension, "
+           "indexes / coords list their keys in registration order - not the order of the dimensions -, coordinates carry an "
+           "attrs dict, len() is the size of the first axis / of the index)"]
 ASSUMPTIONS = ["binary64 arithmetic is exact on the dyadic grids used for range requests",
                "step > 0 and start <= stop for range requests; axes increasing for lookups (the property's quantifier)",
                "the query value of a lookup is a number of the axis' dtype (on a float32 axis pandas casts a binary64 "
@@ -144,12 +157,15 @@ def _impl_range_free(inp):
         sr = step
         step = 1.0 / sr
         stop = start + n * step
-    fn = {"range": lambda: arrays.create_range_dim("x", start, stop, step=step),
-          "time": lambda: arrays.create_time_range(start, stop, step=step),
-          "frequency": lambda: arrays.create_frequency_range(start, stop, step),
-          "size": lambda: arrays.create_range_dim("x", start, stop, size=n),
-          "samplerate": lambda: arrays.create_time_range(start, stop, samplerate=sr)}[inp["kind"]]
+    kw = {"dtype": np.float32} if inp.get("f32") else {}
+    fn = {"range": lambda: arrays.create_range_dim("x", start, stop, step=step, **kw),
+          "time": lambda: arrays.create_time_range(start, stop, step=step, **kw),
+          "frequency": lambda: arrays.create_frequency_range(start, stop, step, **kw),
+          "size": lambda: arrays.create_range_dim("x", start, stop, size=n, **kw),
+          "samplerate": lambda: arrays.create_time_range(start, stop, samplerate=sr, **kw)}[inp["kind"]]
     v = fn()
+    if kw and np.asarray(v.data).dtype != np.float32:
+        return {"raise": "crash:dtype-not-honoured"}
     # the library call the trailing-point rule has to cope with, and the threshold as the code computes it
     lib = [float(c) for c in np.arange(start=start, stop=stop, step=step, dtype=np.float64)]
     return {"val": {"coords": [float(c) for c in np.asarray(v.data)], "step": v.attrs.get("step"), "stop": stop,
@@ -176,6 +192,17 @@ def _holds_range_free(ctx, inp, out):
     # numpy's contract (hypothesis of C16_count_robust), exactly, on what np.arange returned
     lib = [Fraction(c) for c in r["arange"]]
     delta, thr = qd / 5, Fraction(r["thr"])
+    if inp.get("f32"):
+        # float32 coordinates (from start 0, where numpy fills with i * float32(step)): the count, the step
+        # attribute (the requested binary64 step, not its float32 rounding) and the lattice up to float32 rounding
+        if len(cs) != n:
+            return f"{len(cs)} float32 coordinates for (stop - start)/step = {n}"
+        if r["step"] is None or float(r["step"]) != step:
+            return "step attribute differs from the requested step (float32 coordinates)"
+        for i, c in enumerate(cs):
+            if not (start <= c < r["stop"]) or abs(Fraction(c) - (qs + i * qd)) > (Fraction(abs(c)) + 1) / 2 ** 20:
+                return f"float32 coordinate {i} = {c!r} outside [start, stop) or off the lattice"
+        return None
     ok = _arange_contract(qs, qd, delta, thr, n, lib)
     ctx.contract("numpy-arange-within-quarter-step", ok, inp, {"arange_len": len(lib), "n": n},
                  "np.arange returned neither n nor n+1 points, or a point / the threshold a quarter step off")
@@ -258,20 +285,32 @@ def _impl_index_dim(inp):
     arr = xr.DataArray(np.zeros(len(coords)), dims=[dim], coords={dim: var})
     n = len(coords)
     out = []
+
+    def look(q, raise_):
+        try:
+            res = arrays.get_coord_index(arr, dim, q, raise_error=raise_)
+            o = {"val": int(res)} if int(res) == res else {"raise": "crash:not-an-int"}
+        except Exception as e:  # noqa: BLE001
+            from ..core import canon_exc
+            o = canon_exc(e)
+        out.append([rat(q), o, raise_])
+
     for i in range(n):
         qs = [coords[i], ulp_up(coords[i]), ulp_down(coords[i])]
         if i + 1 < n:
             qs.append(coords[i] + (coords[i + 1] - coords[i]) / 2)
         for q in qs:
-            if not (coords[0] <= q <= coords[-1]):
-                continue
-            try:
-                res = arrays.get_coord_index(arr, dim, q, raise_error=True)
-                o = {"val": int(res)} if int(res) == res else {"raise": "crash:not-an-int"}
-            except Exception as e:  # noqa: BLE001
-                from ..core import canon_exc
-                o = canon_exc(e)
-            out.append([rat(q), o])
+            if coords[0] <= q <= coords[-1]:
+                look(q, True)
+    if n:
+        # beyond the axis, in particular within one step of it (between the last coordinate and `stop`):
+        # outside the range of the dimension - raise or clamp
+        first, last = coords[0], coords[-1]
+        for q in (ulp_up(last), last + step / 4, last + step / 2, ulp_down(last + step), last + step, ulp_up(last + step),
+                  stop, last + 3 * step, ulp_down(first), first - step / 4, first - step, first - 3 * step):
+            if not (first <= q <= last):
+                look(q, True)
+                look(q, False)
     return {"val": {"coords": rats(coords), "lookups": out}}
 
 
@@ -280,33 +319,123 @@ def _holds_index_dim(ctx, inp, out):
         return "building the axis or the array failed: %r" % (out,)
     coords = out["val"]["coords"]
     reqs = []
-    for q, o in out["val"]["lookups"]:
+    for q, o, raise_ in out["val"]["lookups"]:
         if not is_err(o) and o["val"] < 0:
             return f"lookup of {q} returned a negative index"
         if is_err(o) and o["raise"].startswith("crash"):
             o = {"raise": "index"}
-        reqs.append({"coords": coords, "v": q, "raise": True, "out": o})
+        reqs.append({"coords": coords, "v": q, "raise": raise_, "out": o})
     oks = ctx.model_many("holds_index", reqs)
     for r, ok in zip(reqs, oks):
         if not ok:
             fr = frac(r["v"])
             return (f"lookup statement of C16 fails on an axis built by the range constructor: query {float(fr)!r} "
-                    f"-> {r['out']}")
+                    f"(raise_error={r['raise']}) -> {r['out']}")
     return None
+
+
+def _axis_step(ax):
+    return float(ax[1] - ax[0]) if len(ax) > 1 else 1.0
+
+
+def _build_array(shape, data, axes, b):
+    """The array with dimensions d0, d1, …, the given shape / data / axes, along one of xarray's ordinary
+    construction paths (`build` of a case; none of them changes what the array *is*):
+      corder     order in which the dimension coordinates are registered (need not be the order of dims)
+      transpose  the array is built with its dimensions in this order and transposed to d0, d1, …
+                 (transposing keeps the registration order of the coordinates; the data become a strided view)
+      nocoord    dimensions without a coordinate (never queried)
+      extra      further coordinates that are no index: "scalar", "aux1d" (on one dimension), "aux2d"
+      extra_first  … registered before the dimension coordinates
+      form       "dict" (coords=…), "assign" (assign_coords afterwards, one by one), "dataset" (taken out of a
+                 Dataset), "tuples" (coords=[(name, values), …], which also fixes dims)
+      step_attr  coordinates handed over as xr.Variable with a `step` attribute (as the range constructors do)
+      axis_dtype {axis: "float32" | "int64"}
+      layout     "F": Fortran-ordered data"""
+    import numpy as np
+    import xarray as xr
+    b = b or {}
+    nd = len(shape)
+    dims = [f"d{k}" for k in range(nd)]
+    nocoord = set(b.get("nocoord", ()))
+    adt = b.get("axis_dtype") or {}
+    cvals = {}
+    for k in range(nd):
+        if k in nocoord:
+            continue
+        a = np.array(axes[k], dtype=float)
+        if adt.get(str(k)):
+            a = a.astype(adt[str(k)])
+        cvals[k] = a
+
+    def coord(k):
+        if b.get("step_attr"):
+            return xr.Variable(dims[k], cvals[k], attrs={"step": _axis_step(axes[k]), "units": "s"})
+        return (dims[k], cvals[k])
+
+    corder = [k for k in b.get("corder", range(nd)) if k not in nocoord]
+    extras = {}
+    for e in b.get("extra", ()):
+        if e == "scalar":
+            extras["s"] = 3.5
+        elif e == "aux1d":
+            j = (b.get("aux_axis", 0)) % nd
+            extras["lab"] = (dims[j], np.arange(shape[j]) * 10.0 + 1.0)
+        elif e == "aux2d" and nd >= 2:
+            extras["m"] = ((dims[0], dims[1]), np.arange(shape[0] * shape[1], dtype=float).reshape(shape[0], shape[1]))
+    perm = list(b.get("transpose", range(nd)))
+    base_dims = [dims[p] for p in perm]
+    base = np.ascontiguousarray(np.transpose(data, perm))
+    if b.get("layout") == "F":
+        base = np.asfortranarray(base)
+    form = b.get("form", "dict")
+    if form == "tuples" and not nocoord and perm == list(range(nd)):
+        arr = xr.DataArray(base, coords=[(dims[k], cvals[k]) for k in range(nd)])
+        arr = arr.assign_coords(extras) if extras else arr
+    elif form == "assign":
+        arr = xr.DataArray(base, dims=base_dims)
+        if b.get("extra_first") and extras:
+            arr = arr.assign_coords(extras)
+        for k in corder:
+            arr = arr.assign_coords({dims[k]: coord(k)})
+        if not b.get("extra_first") and extras:
+            arr = arr.assign_coords(extras)
+    else:
+        cs = {}
+        if b.get("extra_first"):
+            cs.update(extras)
+        for k in corder:
+            cs[dims[k]] = coord(k)
+        if not b.get("extra_first"):
+            cs.update(extras)
+        if form == "dataset":
+            arr = xr.Dataset({"a": (base_dims, base)}, coords=cs)["a"]
+        else:
+            arr = xr.DataArray(base, dims=base_dims, coords=cs)
+    if perm != list(range(nd)):
+        arr = arr.transpose(*dims)
+    if tuple(arr.dims) != tuple(dims) or tuple(arr.shape) != tuple(shape):
+        raise RuntimeError("harness: the construction path did not yield the requested array")
+    snap = {n: np.array(c.values, copy=True) for n, c in arr.coords.items()}
+    return arr, dims, snap
+
+
+def _coords_unchanged(out, snap):
+    import numpy as np
+    if set(out.coords) != set(snap):
+        return False
+    return all(np.asarray(out.coords[n].values).tobytes() == v.tobytes() for n, v in snap.items())
 
 
 @guarded
 def _impl_set(inp):
     import copy
     import numpy as np
-    import xarray as xr
     from soundevent.arrays import operations as ops
     shape = inp["shape"]
-    dims = [f"d{k}" for k in range(len(shape))]
-    dt = "int64" if inp.get("int_data") else float
+    dt = "int64" if inp.get("int_data") else ("float32" if inp.get("f32_data") else float)
     data = np.array(fl(inp["data"]), dtype=dt).reshape(shape)
-    coords = {d: np.array(fl(ax), dtype=float) for d, ax in zip(dims, inp["axes"])}
-    arr = xr.DataArray(data, dims=dims, coords=coords)
+    arr, dims, snap = _build_array(shape, data, [fl(ax) for ax in inp["axes"]], inp.get("build"))
     val = inp["value"]
     if "scalar" in val:
         value = _typed(f(val["scalar"]), inp.get("vty"))
@@ -319,19 +448,58 @@ def _impl_set(inp):
             value = tuple(value.tolist()) if value.ndim else value.tolist()
     given = copy.deepcopy(value)
     query = {f"d{k}": _typed(f(q), inp.get("qty") if _fits(f(q), inp.get("qty")) else None) for k, q in inp["query"]}
-    out = ops.set_value_at_pos(arr, value, **query)
+    try:
+        out = ops.set_value_at_pos(arr, value, **query)
+    except Exception:
+        if np.asarray(arr.values).tobytes() != data.tobytes() or not _coords_unchanged(arr, snap):
+            return {"raise": "crash:array-changed-by-a-rejected-call"}
+        raise
+    if tuple(out.dims) != tuple(dims):
+        return {"raise": "crash:dimensions-changed"}
     res = np.asarray(out.data)
     if res.shape != tuple(shape):
         return {"raise": "crash:shape-changed"}
-    for d in dims:
-        if d not in out.coords or np.asarray(out.coords[d]).tobytes() != coords[d].tobytes():
-            return {"raise": "crash:coordinates-changed"}
+    if not _coords_unchanged(out, snap):
+        return {"raise": "crash:coordinates-changed"}
     if not np.array_equal(np.asarray(given, dtype=float), np.asarray(value, dtype=float)):
         return {"raise": "crash:value-argument-mutated"}
+    # the whole array after the call (row-major, in the order of the dimensions): the model fixes every element
     return {"val": [rat(float(x)) for x in res.reshape(-1)]}
 
 
-_SET_HARNESS_KEYS = ("int_data", "vty", "qty", "container")
+_ND_CACHE = {}
+
+
+@guarded
+def _impl_index_nd(inp):
+    """get_coord_index on one axis of a multi-dimensional array (any construction path)"""
+    import numpy as np
+    from soundevent import arrays
+    from ..core import jkey
+    shape = inp["shape"]
+    key = jkey([shape, inp["axes"], inp.get("build")])
+    if _ND_CACHE.get("key") != key:        # consecutive cases share the array (a lookup must not change it)
+        data = np.arange(1, 1 + math.prod(shape), dtype=float).reshape(shape)
+        arr, dims, snap = _build_array(shape, data, [fl(ax) for ax in inp["axes"]], inp.get("build"))
+        _ND_CACHE.clear()
+        _ND_CACHE.update(key=key, built=(arr, dims, snap, np.array(arr.values, copy=True)))
+    arr, dims, snap, before = _ND_CACHE["built"]
+    v = _typed(f(inp["v"]), inp.get("qty") if _fits(f(inp["v"]), inp.get("qty")) else None)
+    kw = {} if inp.get("omit_raise") else {"raise_error": inp["raise"]}
+    r = arrays.get_coord_index(arr, dims[inp["axis"]], v, **kw)
+    if isinstance(r, bool) or int(r) != r:
+        return {"raise": "crash:not-an-int"}
+    if not _coords_unchanged(arr, snap) or np.asarray(arr.values).tobytes() != before.tobytes():
+        _ND_CACHE.clear()
+        return {"raise": "crash:array-changed"}
+    return {"val": int(r)}
+
+
+def _index_nd_to_model(inp):
+    return {"coords": inp["axes"][inp["axis"]], "v": inp["v"], "raise": inp["raise"]}
+
+
+_SET_HARNESS_KEYS = ("int_data", "f32_data", "vty", "qty", "container", "build")
 
 
 def _set_to_model(inp):
@@ -366,6 +534,8 @@ OPS = {
     "coord_index_dim": Op("coord_index_dim", _impl_index_dim, holds=_holds_index_dim, model_op="noop",
                           compare=lambda inp, io, mo: None,
                           nontrivial=lambda inp, out: not is_err(out) and len(out["val"]["lookups"]) > 0),
+    # (no separate monitor: the comparison with `coordIndex` is exact and, by C16_index_spec_determines, the same judgement)
+    "coord_index_nd": Op("coord_index_nd", _impl_index_nd, model_op="coord_index", to_model=_index_nd_to_model),
     "set_value": Op("set_value", _impl_set, to_model=_set_to_model),
 }
 
@@ -403,6 +573,12 @@ def _range_random_cases(rng, n):
             sr = rng.choice([1, 2, 4, 8, 256, 1024, Fraction(1, 2), Fraction(1, 4), Fraction(1, 8)])
             stop = s0 + min(cnt, 64) / Fraction(sr)
             case = {"kind": "time", "start": rat(s0), "stop": rat(stop), "samplerate": rat(sr)}
+        # both ways of giving the step at once (the step wins), agreeing or not
+        if rng.random() < 0.08 and "step" in case:
+            if kind == "time":
+                case["samplerate"] = rat(rng.choice([1 / st, Fraction(rng.choice([1, 2, 4, 8])), Fraction(1, 2)]))
+            elif kind == "range":
+                case["size"] = rng.choice([1, 2, 3, 8, max(cnt, 1)])
         # the same request with ints / numpy scalars (where that is the same number), float32 coordinates
         ty = rng.choice(["float", "float", "int", "npint", "np64", "np32"])
         nums = [f(case.get(k)) for k in ("start", "stop", "step", "samplerate")]
@@ -430,6 +606,9 @@ def _range_random_cases(rng, n):
     yield {"kind": "range", "start": "1", "stop": "0", "step": "-1/4"}
     yield {"kind": "range", "start": "0", "stop": "0", "step": "1/2"}
     yield {"kind": "range", "start": "0", "stop": "1", "step": "1/4", "size": 2}
+    yield {"kind": "time", "start": "0", "stop": "1", "step": "1/4", "samplerate": "2"}
+    yield {"kind": "time", "start": "0", "stop": "1", "step": "1/4", "samplerate": "4"}
+    yield {"kind": "time", "start": "0", "stop": "1", "step": "1/2", "samplerate": "0"}
 
 
 FREE_STEPS = [0.1, 0.01, 1 / 3, 1 / 44100, 0.004, 1e-3, 1 / 22050, 0.05, 1 / 48000, 0.3]
@@ -460,6 +639,12 @@ def _range_free_cases(ctx):
         for s0 in (0.0, 0.5, 1.3):
             for n in (1, 2, 5, 100, 441, rng.randint(1, 1500)):
                 yield {"kind": "samplerate", "start": rat(s0), "step": rat(sr), "n": n}
+    # dtype=float32 with steps that are no float32 numbers (from zero: numpy fills with i * float32(step))
+    for st in FREE_STEPS:
+        for n in (1, 2, 7, 100, rng.randint(1, 1000)):
+            yield {"kind": rng.choice(["range", "time", "frequency", "size"]), "start": "0", "step": rat(st), "n": n, "f32": True}
+    for sr in (44100.0, 22050.0, 3.0, 0.3):
+        yield {"kind": "samplerate", "start": "0", "step": rat(sr), "n": rng.randint(1, 1000), "f32": True}
 
 
 def _axes_pool(rng, n_random):
@@ -534,6 +719,10 @@ def _index_dim_cases(ctx):
     both float neighbours and every midpoint is looked up"""
     rng = ctx.rng
     steps = [0.1, 0.01, 1 / 3, 1 / 44100, 0.004, 0.25, 1 / 22050, 0.3, 1e-3]
+    for step in (1.0, 0.25, 0.1):        # short axes first (small replays)
+        for n in (1, 2, 5):
+            for kind in ("range", "time", "frequency"):
+                yield {"range": {"kind": kind, "start": "0", "stop": rat(n * step), "step": rat(step)}}
     for step in steps:
         for start in (0.0, 0.3, rng.choice([1.7, 12.34, 100.001])):
             n = ctx.budget(60, 400) + rng.randint(0, 7)
@@ -594,6 +783,171 @@ def _set_cases(ctx):
                    "query": [[k, rat(axes[k][0] - Fraction(1, 8))]], "value": {"scalar": "9"}}
             yield {"shape": list(shape), "data": data, "axes": [rats(a) for a in axes],
                    "query": [[nd, "0"]], "value": {"scalar": "9"}}
+
+
+# shapes for the construction-path cases: non-square on purpose (an axis mix-up changes a size or raises)
+ND_SHAPES = [(4,), (2, 3), (3, 2), (1, 4), (4, 1), (2, 5), (5, 3), (3, 3),
+             (2, 3, 4), (4, 3, 2), (3, 1, 2), (2, 4, 3), (1, 2, 3), (3, 2, 2)]
+_EXTRAS = ["scalar", "aux1d", "aux2d"]
+
+
+def _builds(rng, nd, n_random):
+    """construction paths of an nd-dimensional array (see `_build_array`): every registration order of the
+    coordinates, every transposition, every dimension (pair) without a coordinate, extra coordinates before /
+    after, the other forms, step attributes, axis dtypes, Fortran layout - and random combinations"""
+    ident = list(range(nd))
+    perms = [list(q) for q in itertools.permutations(range(nd)) if list(q) != ident]
+    rev = ident[::-1]
+    out = [{}]
+    out += [{"corder": q} for q in perms]
+    out += [{"transpose": q} for q in perms]
+    if nd >= 2:
+        out += [{"nocoord": [k]} for k in range(nd)]
+    if nd >= 3:
+        out += [{"nocoord": list(c)} for c in itertools.combinations(range(nd), 2)]
+    out += [{"extra": _EXTRAS, "extra_first": True}, {"extra": _EXTRAS, "aux_axis": nd - 1},
+            {"form": "assign", "corder": rev}, {"form": "assign", "extra": _EXTRAS, "extra_first": True},
+            {"form": "dataset", "corder": rev}, {"form": "tuples"},
+            {"step_attr": True}, {"step_attr": True, "corder": rev, "extra": ["scalar"]},
+            {"layout": "F"}]
+    if perms:
+        out += [{"layout": "F", "transpose": perms[-1]}, {"step_attr": True, "transpose": perms[0]},
+                {"form": "dataset", "transpose": perms[0], "nocoord": [nd - 1]}]
+    for k in range(nd):
+        out.append({"axis_dtype": {str(k): ["float32", "int64"][k % 2]}})
+    out.append({"axis_dtype": {str(k): ["int64", "float32"][k % 2] for k in range(nd)}, "corder": rev})
+    for _ in range(n_random):
+        b = {}
+        if perms and rng.random() < 0.6:
+            b["corder"] = rng.choice(perms)
+        if perms and rng.random() < 0.5:
+            b["transpose"] = rng.choice(perms)
+        if nd >= 2 and rng.random() < 0.3:
+            b["nocoord"] = sorted(rng.sample(range(nd), rng.randint(1, nd - 1)))
+        if rng.random() < 0.5:
+            b["extra"] = [e for e in _EXTRAS if rng.random() < 0.6]
+            b["extra_first"] = rng.random() < 0.5
+            b["aux_axis"] = rng.randrange(nd)
+        b["form"] = rng.choice(["dict", "dict", "assign", "dataset"])
+        if rng.random() < 0.3:
+            b["step_attr"] = True
+        if rng.random() < 0.3:
+            b["layout"] = "F"
+        if rng.random() < 0.3:
+            b["axis_dtype"] = {str(rng.randrange(nd)): rng.choice(["float32", "int64"])}
+        out.append(b)
+    return out
+
+
+def _built_axes(rng, shape, b):
+    axes = []
+    adt = b.get("axis_dtype") or {}
+    for k, d in enumerate(shape):
+        if adt.get(str(k)) == "int64":
+            a0, stp = Fraction(rng.randint(-4, 4)), Fraction(rng.choice([1, 2, 3]))
+        else:
+            a0, stp = Fraction(rng.randint(-8, 8), 4), Fraction(rng.choice([1, 2, 3, 5]), 4)
+        axes.append([a0 + i * stp for i in range(d)])
+    return axes
+
+
+def _set_cases_built(ctx):
+    """writes into arrays built along every construction path, non-square shapes; every subset of the queried
+    axes; positions on and between coordinates; just outside the axis (-> KeyError, nothing written)"""
+    rng = ctx.rng
+    reps = ctx.budget(1, 3)
+    for shape in ND_SHAPES:
+        nd = len(shape)
+        data = rats(range(1, math.prod(shape) + 1))
+        for b in _builds(rng, nd, ctx.budget(6, 30)):
+            axes = _built_axes(rng, shape, b)
+            qable = [k for k in range(nd) if k not in b.get("nocoord", ())]
+            base = {"shape": list(shape), "data": data, "axes": [rats(a) for a in axes]}
+            if b:
+                base["build"] = b
+            for r in range(0, len(qable) + 1):
+                for dims in itertools.combinations(qable, r):
+                    if r == 0 and rng.random() < 0.7:
+                        continue
+                    free = [shape[k] for k in range(nd) if k not in dims]
+                    for _ in range(reps):
+                        query = []
+                        for k in dims:
+                            ax = axes[k]
+                            i = rng.randrange(len(ax))
+                            c = ax[i]
+                            if i + 1 < len(ax) and rng.random() < 0.4 and (b.get("axis_dtype") or {}).get(str(k)) != "int64":
+                                c = c + (ax[i + 1] - c) * Fraction(rng.choice([1, 2, 3]), 4)
+                            query.append([k, rat(c)])
+                        rng.shuffle(query)
+                        kind = rng.choice(["scalar", "scalar", "exact", "ones", "bad"] if free else ["scalar", "scalar", "cell_list"])
+                        case = dict(base, query=query, value=_value(rng, kind, free))
+                        x = rng.random()
+                        if x < 0.15:
+                            case["int_data"] = True
+                        elif x < 0.3:
+                            case["f32_data"] = True
+                        elif x < 0.4:
+                            case["container"] = rng.choice(["tuple", "ndarray"]) if free else "tuple"
+                        elif x < 0.5:
+                            case["qty"] = rng.choice(["np64", "np32", "int", "npint"])
+                        yield case
+            # just outside an axis (within one step of it), alone and together with a valid position
+            for k in qable:
+                ax = axes[k]
+                stp = ax[1] - ax[0] if len(ax) > 1 else Fraction(1, 2)
+                outs = [ax[-1] + stp / 2, ax[-1] + stp, ax[0] - stp / 4]
+                q = [[k, rat(rng.choice(outs))]]
+                others = [j for j in qable if j != k]
+                if others and rng.random() < 0.5:
+                    j = rng.choice(others)
+                    q.append([j, rat(rng.choice(axes[j]))])
+                    rng.shuffle(q)
+                yield dict(base, query=q, value={"scalar": "9"})
+        # a dimension the array does not have
+        yield {"shape": list(shape), "data": data, "axes": [rats(a) for a in _built_axes(rng, shape, {})],
+               "query": [[nd, "0"]], "value": {"scalar": "9"}, "build": {"corder": list(range(nd))[::-1]}}
+
+
+def _index_nd_cases(ctx, n_random=None):
+    """get_coord_index on every axis of non-square 2-D / 3-D arrays (every construction path): clamp and raise
+    beyond both ends (just outside, within a step, far), on / between coordinates inside"""
+    rng = ctx.rng
+    for shape in ND_SHAPES:
+        nd = len(shape)
+        for b in _builds(rng, nd, ctx.budget(4, 30) if n_random is None else n_random):
+            axes = _built_axes(rng, shape, b)
+            base = {"shape": list(shape), "axes": [rats(a) for a in axes]}
+            if b:
+                base["build"] = b
+            adt = b.get("axis_dtype") or {}
+            for k in range(nd):
+                if k in b.get("nocoord", ()):
+                    continue
+                ax = axes[k]
+                stp = ax[1] - ax[0] if len(ax) > 1 else Fraction(1, 2)
+                exact = adt.get(str(k)) is None          # binary64 axis: any binary64 query value
+                above = [ax[-1] + stp / 2, ax[-1] + stp, ax[-1] + 7 * stp]
+                below = [ax[0] - stp / 4, ax[0] - stp, ax[0] - 5 * stp]
+                if exact:
+                    above.append(frac(rat(ulp_up(float(ax[-1])))))
+                    below.append(frac(rat(ulp_down(float(ax[0])))))
+                cases = [(q, False) for q in above + rng.sample(below, 2)]
+                cases += [(rng.choice(above), True), (rng.choice(below), True)]
+                i = rng.randrange(len(ax))
+                inside = [ax[i], ax[-1], ax[0]]
+                if len(ax) > 1:
+                    j = rng.randrange(len(ax) - 1)
+                    inside.append(ax[j] + (ax[j + 1] - ax[j]) * Fraction(rng.choice([1, 2, 3]), 4))
+                cases += [(q, rng.random() < 0.5) for q in inside]
+                for q, raise_ in cases:
+                    case = dict(base, axis=k, v=rat(q), **{"raise": raise_})
+                    x = rng.random()
+                    if x < 0.15 and raise_:
+                        case["omit_raise"] = True
+                    elif x < 0.35:
+                        case["qty"] = rng.choice(["np64", "np32", "int", "npint"])
+                    yield case
 
 
 def _set_cases_4d(ctx):
@@ -661,6 +1015,24 @@ def _stage_index_dim(ctx):
                                          "every midpoint looked up, judged by the Lean index statement")
 
 
+def _stage_index_nd(ctx):
+    ctx.run_cases(OPS["coord_index_nd"], _index_nd_cases(ctx))
+    ctx.exhaustive["coord_index_nd"] = ("every axis of 13 non-square 2-D / 3-D shapes x every registration order of the "
+                                        "coordinates, every transposition, every dimension (pair) without coordinate, "
+                                        "extra non-index coordinates, assign / Dataset / tuple forms, step attributes, "
+                                        "float32 / int64 axes: clamp beyond both ends (ulp, half a step, a step, far), "
+                                        "raise, on / between coordinates")
+
+
+def _stage_set_built(ctx):
+    ctx.run_cases(OPS["set_value"], _set_cases_built(ctx))
+    ctx.exhaustive["set_value construction paths"] = (
+        "14 shapes (1-D, non-square 2-D / 3-D) x every registration order of the coordinates, every transposition, every "
+        "dimension (pair) without coordinate, extra non-index coordinates (scalar, 1-D, 2-D) before / after, assign / "
+        "Dataset / tuple forms, step attributes, float32 / int64 axes, Fortran layout x every subset of queried axes; "
+        "the whole array is compared after the call")
+
+
 def _stage_set(ctx):
     ctx.run_cases(OPS["set_value"], _set_cases(ctx))
     ctx.run_cases(OPS["set_value"], _set_cases_4d(ctx))
@@ -670,7 +1042,7 @@ def _stage_set(ctx):
 
 def _stage_kernels(ctx):
     """Tie 1b: the kernels of the five functions, traced from the current source, equal the model's kernels
-    for all rationals (38 obligations; `C16_range_kernel`, `C16_index_kernel`, `C16_indexer_kernel`,
+    for all rationals (49 obligations; `C16_range_kernel`, `C16_index_kernel`, `C16_indexer_kernel`,
     `C16_set_kernel` connect the kernels with the model the other theorems are about)"""
     from .. import c16_sym
     ctx.stage("kernel-range", c16_sym.range_ties, ctx)
@@ -686,11 +1058,15 @@ def run(ctx):
     ctx.stage("range-free-monitor", lambda: ctx.run_cases(OPS["range_free"], _range_free_cases(ctx)))
     ctx.stage("coord-index", _stage_index, ctx)
     ctx.stage("coord-index-on-range-dims", _stage_index_dim, ctx)
+    ctx.stage("coord-index-nd", _stage_index_nd, ctx)
     ctx.stage("set-value", _stage_set, ctx)
+    ctx.stage("set-value-construction-paths", _stage_set_built, ctx)
 
 
 def search(ctx, failures):
     ctx.run_cases(OPS["range_dim"], _range_random_cases(ctx.rng, 5000))
     ctx.run_cases(OPS["coord_index"], _index_cases(ctx))
     ctx.run_cases(OPS["coord_index_dim"], _index_dim_cases(ctx))
+    ctx.run_cases(OPS["coord_index_nd"], _index_nd_cases(ctx, 12))
     ctx.run_cases(OPS["set_value"], _set_cases(ctx))
+    ctx.run_cases(OPS["set_value"], _set_cases_built(ctx))
